@@ -43,20 +43,23 @@ func ParseIdentity(
 			return nil, err
 		}
 
-		if password != "" {
-			for _, identity := range identities {
-				if identity.PrivateKey == nil {
-					return nil, config.ErrIdentityUnparsable
-				}
+		for _, identity := range identities {
+			// Keys generated with an empty password are still locked (with the empty passphrase), so unlock those too
+			if password == "" && (identity.PrivateKey == nil || !identity.PrivateKey.Encrypted) {
+				continue
+			}
 
-				if err := identity.PrivateKey.Decrypt([]byte(password)); err != nil {
+			if identity.PrivateKey == nil {
+				return nil, config.ErrIdentityUnparsable
+			}
+
+			if err := identity.PrivateKey.Decrypt([]byte(password)); err != nil {
+				return nil, err
+			}
+
+			for _, subkey := range identity.Subkeys {
+				if err := subkey.PrivateKey.Decrypt([]byte(password)); err != nil {
 					return nil, err
-				}
-
-				for _, subkey := range identity.Subkeys {
-					if err := subkey.PrivateKey.Decrypt([]byte(password)); err != nil {
-						return nil, err
-					}
 				}
 			}
 		}
